@@ -440,6 +440,23 @@ Definition build_agglom (fuel n : nat) : option tree :=
   | None => None
   end.
 
+End Agglom.
+
+(* membership oracle replaying the recorded partition of each round (keyed by the
+   list of current groups); unknown key = nothing merged *)
+Definition memb_of_table (tbl : list (list nset * list nat)) (l : list nset) : list nat :=
+  match find (fun kv => nset_list_eqb (fst kv) l) tbl with
+  | Some (_, m) => m
+  | None => seq 0 (length l)
+  end.
+
+Section AgglomFixed.
+Variable sub : list nset -> path.
+Variable memb_fn : list nset -> list nat.
+Variable groupsize : nat.
+Let agglom_groups := agglom_groups memb_fn.
+Let agglom_round := agglom_round sub memb_fn.
+
 (* the proposed repair: a round that merges nothing contracts the remainder *)
 Fixpoint agglom_loop_fixed (fuel : nat) (lv : list tree) : option (list tree) :=
   if Nat.ltb groupsize (length lv) then
@@ -457,4 +474,4 @@ Definition build_agglom_fixed (n : nat) : option tree :=
   | Some lv => match lv with [t] => Some t | _ => contract_list sub lv end
   | None => None
   end.
-End Agglom.
+End AgglomFixed.
